@@ -75,6 +75,7 @@ def run(res, tier):
     res.rule("R-NEWOBJ", "a modifier annotated to return a TimeSeries returns a newly constructed object on every path",
              floor=FLOOR_NEWOBJ)
 
+    res.trusted = ["CPython 3.11 ast parser", "numpy allocation/view semantics as tabulated in sa/pyalias.py"]
     res.count("files", len(FILES))
     res.count("functions", len(results))
     status_count = {}
